@@ -423,7 +423,15 @@ impl Compiler {
     fn compile_positive_lookaround(&mut self, inner: &Info<'_>, la: LookAround) -> Result<()> {
         let save = self.b.newsave();
         self.b.add(Insn::Save(save));
+        // An easy body is a single delegate that never leaves backtrack branches behind.
+        // A hard body has to be committed once it matched, like an atomic group.
+        if inner.hard {
+            self.b.add(Insn::BeginAtomic);
+        }
         self.compile_lookaround_inner(inner, la)?;
+        if inner.hard {
+            self.b.add(Insn::EndAtomic);
+        }
         self.b.add(Insn::Restore(save));
         Ok(())
     }
